@@ -100,6 +100,13 @@ def cases(tier: str, seed: int) -> list[dict]:
             for et in gm.ET_1D:
                 for bdim in (1, 2, 3):
                     out.append({"kind": "beam", "dim": bdim, "et": et, "theory": theory, "mesh": "line"})
+        # members made of two welded beams: non-zero prescribed values through the Lagrange-multiplier solve
+        for theory, et, bdim in (("EB", "SEG2", 2), ("EB", "SEG3", 3), ("Timo", "SEG2", 3), ("Timo", "SEG3", 2), ("EB", "SEG4", 1)):
+            out.append({"kind": "beam", "dim": bdim, "et": et, "theory": theory, "mesh": "welded"})
+    # one system with more than 46341 dofs: linear (row, col) indices no longer fit 32-bit integers
+    out.append({"kind": "elastic", "dim": 2, "et": "TRI3", "law": "iso", "ps": True, "mesh": "large"})
+    if tier != "quick":
+        out.append({"kind": "thermal", "dim": 2, "et": "TRI3", "mesh": "large"})
     for i, c in enumerate(out):
         c["id"] = f"C01-{i:05d}-{c['kind']}-{c['dim']}d-{c['et']}-{c.get('law', c.get('theory', 'k'))}-{c['mesh']}"
         c["index"] = i
@@ -154,6 +161,8 @@ def build_mesh(case: dict, rng: np.random.Generator):
     else:
         if mc == "organised":
             poly = np.array([[0, 0], [1, 0], [1, 1], [0, 1]], float) * rng.uniform(0.6, 2.0, 2)
+        elif mc == "large":
+            poly = np.array([[0, 0], [1.3, 0], [1.0, 1.0], [0, 0.8]], float)
         else:
             poly = gm.random_polygon(rng, n=int(rng.integers(4, 7)), concave=(mc == "concave"))
         order = gm.ORDER[et]
@@ -161,6 +170,9 @@ def build_mesh(case: dict, rng: np.random.Generator):
         if dim == 3:
             target *= 1.5
         ms = float(target * rng.uniform(0.85, 1.2))
+        if mc == "large":
+            # ~27 000 nodes (elastic: 54 000 dofs) / ~48 000 nodes (thermal)
+            ms = 0.0063 if case["kind"] == "elastic" else 0.0047
         with quiet():
             if dim == 2:
                 mesh = gm.mesh2d(poly, et, ms, organised=(mc == "organised"))
